@@ -3,7 +3,7 @@
      R <file> <query>,<query>,...   -> results joined by '|'  (same wire format as the Go harness)
      W <file> <unaligned,blocksize,skipidx,restart,sha256,exact> <min> <max> <refs> <logs>  -> ok | empty | err<code>
      SR <dir> <sha256>              -> ok|<all refs>|<all logs> through the stack's merged table
-     SW <dir> <cfg> <op>!<op>...    -> a stack written by the C code (op = A~refs~logs | CA | CE~time~min_update_index): status per op
+     SW <dir> <cfg> <op>!<op>...    -> a stack written by the C code (op = A~refs~logs | M~refs%refs... | CA | CE~time~min_update_index): status per op
 */
 #include <stdint.h>
 #include <stdio.h>
@@ -373,12 +373,18 @@ struct add_arg {
 	struct reftable_stack *st;
 	char *refs;
 	char *logs;
+	int addition_index; /* inside a multi-table addition: the limits are the first record's update index */
 };
 
 static int stack_write_cb(struct reftable_writer *w, void *argv)
 {
 	struct add_arg *a = argv;
 	uint64_t ui = reftable_stack_next_update_index(a->st);
+	if (a->addition_index) {
+		char *c = strchr(a->refs, ':');
+		if (c)
+			ui = strtoull(c + 1, NULL, 10);
+	}
 	reftable_writer_set_limits(w, ui, ui);
 	return add_records(w, a->refs, a->logs);
 }
@@ -400,7 +406,7 @@ static void do_stack_write(char *dir, char *cfg, char *ops)
 	opts.restart_interval = atoi(c[3]);
 	opts.hash_id = atoi(c[4]) ? SHA256_ID : SHA1_ID;
 	opts.exact_log_message = atoi(c[5]);
-	opts.skip_name_check = 1;
+	opts.skip_name_check = 0;
 	err = reftable_new_stack(&st, dir, opts);
 	if (err < 0) {
 		printf("openerr%d\n", err);
@@ -409,6 +415,20 @@ static void do_stack_write(char *dir, char *cfg, char *ops)
 	for (o = strtok_r(ops, "!", &save); o; o = strtok_r(NULL, "!", &save)) {
 		if (!strcmp(o, "CA")) {
 			err = reftable_stack_compact_all(st, NULL);
+		} else if (!strncmp(o, "M~", 2)) {
+			/* a multi-table addition: M~<refs of table 1>%<refs of table 2>... */
+			struct reftable_addition *add = NULL;
+			char *save2 = NULL, *t;
+			err = reftable_stack_new_addition(&add, st);
+			for (t = strtok_r(o + 2, "%", &save2); t && err >= 0; t = strtok_r(NULL, "%", &save2)) {
+				struct add_arg a = { st, t, "-" };
+				a.addition_index = 1;
+				err = reftable_addition_add(add, stack_write_cb, &a);
+			}
+			if (err >= 0)
+				err = reftable_addition_commit(add);
+			if (add)
+				reftable_addition_destroy(add);
 		} else if (!strncmp(o, "CE~", 3)) {
 			char *p[3];
 			struct reftable_log_expiry_config ec = { 0 };
@@ -421,7 +441,7 @@ static void do_stack_write(char *dir, char *cfg, char *ops)
 			}
 		} else {
 			char *p[3];
-			struct add_arg a = { st, NULL, NULL };
+			struct add_arg a = { st, NULL, NULL, 0 };
 			if (split(o, '~', p, 3) != 3) {
 				err = -100;
 			} else {
